@@ -150,7 +150,7 @@ int8_t libwifi_parse_radiotap_rssi(const unsigned char *frame) {
 
     int8_t rssi = 0;
 
-    struct ieee80211_radiotap_iterator it;
+    struct ieee80211_radiotap_iterator it = {0};
     int ret = ieee80211_radiotap_iterator_init(&it, (void *) frame, rh->it_len, NULL);
 
     while (!ret) {
